@@ -1664,3 +1664,340 @@ Proof.
   - rewrite hasf_keys, K1. apply (family_has_dim dst Hfam).
   - intros N. rewrite hasf_keys, K1. now apply nifti1_has_glmin.
 Qed.
+
+(* ================================================================== written headers carry their signature *)
+Lemma enc_elems_ok be w vs : bytes_ok (enc_elems be w vs).
+Proof. unfold enc_elems. induction vs as [|v vs IH]; cbn [flat_map]; [constructor|]. apply bytes_ok_app; [apply enc_ok|exact IH]. Qed.
+Lemma encode_bytes_ok L be : forall h, bytes_ok (encode_struct L be h).
+Proof.
+  induction L as [|f L IH]; intros [|[k vs] h]; cbn [encode_struct]; try constructor.
+  apply bytes_ok_app; [apply enc_elems_ok|apply IH].
+Qed.
+
+(* the bytes of a field in the serialised header are the encodings of its values *)
+Lemma field_bytes_of_encode c be h f : hdr_fits (layout_of c) h = true -> In f (layout_of c) ->
+  firstn (fwidth f * fcount f) (skipn (Z.to_nat (foff f)) (encode_struct (layout_of c) be h))
+  = enc_elems be (fwidth f) (getf (fid f) h).
+Proof.
+  intros Hfit Hin. set (b := encode_struct (layout_of c) be h).
+  destruct (class_decode_encode c be h Hfit) as [D L]. fold b in D, L.
+  pose proof (class_field_at_offset c be b f Hin) as A. rewrite D in A. rewrite A.
+  symmetry. apply enc_dec_elems; [apply bytes_ok_skipn, encode_bytes_ok|].
+  rewrite skipn_length.
+  (* the field lies inside the block *)
+  assert (Hend : foff f + Z.of_nat (fwidth f * fcount f) <= size_of c /\ 0 <= foff f).
+  { rewrite <- layouts_size. destruct (wf_offsets _ (layouts_wf c)) as [Ho _]. clear - Ho Hin.
+    assert (G : forall L pos, offsets_ok pos L = true -> In f L -> 0 <= pos ->
+                foff f + Z.of_nat (fsize f) <= pos + layout_size L /\ 0 <= foff f).
+    { induction L as [|g L IH]; intros pos H Hi Hp; [destruct Hi|]. cbn [offsets_ok] in H.
+      apply andb_prop in H as [H1 H2]. apply Z.eqb_eq in H1. rewrite layout_size_cons.
+      pose proof (layout_size_nonneg L). destruct Hi as [->|Hi]; [lia|].
+      destruct (IH _ H2 Hi ltac:(lia)). lia. }
+    destruct (G _ 0 Ho Hin ltac:(lia)). unfold fsize in *. lia. }
+  unfold zlen in L. lia.
+Qed.
+
+Lemma apply_writes_get c ws : forall h i, memZ i (protected_fields c) = true ->
+  Forall (fun w => allowed_write c w = true) ws -> getf i (apply_writes ws h) = getf i h.
+Proof.
+  induction ws as [|[j vs] ws IH]; intros h i Hp Hw; [reflexivity|]. inversion Hw as [|? ? Hj Hws]; subst.
+  cbn [apply_writes fold_left fst snd]. fold (apply_writes ws (setf j vs h)). rewrite IH by assumption.
+  apply getf_setf_other. cbn [allowed_write] in Hj. apply andb_prop in Hj as [Hj _]. apply negb_true_iff in Hj.
+  intros E. subst. congruence.
+Qed.
+
+Lemma apply_writes_fits c ws : forall h, hdr_fits (layout_of c) h = true ->
+  Forall (fun w => allowed_write c w = true) ws -> hdr_fits (layout_of c) (apply_writes ws h) = true.
+Proof.
+  induction ws as [|[j vs] ws IH]; intros h Hf Hw; [exact Hf|]. inversion Hw as [|? ? Hj Hws]; subst.
+  cbn [apply_writes fold_left fst snd]. fold (apply_writes ws (setf j vs h)). apply IH; [|assumption].
+  apply hdr_fits_setf; [assumption|]. intros f Ef. cbn [allowed_write] in Hj. rewrite Ef in Hj.
+  apply andb_prop in Hj as [_ Hj]. apply andb_prop in Hj as [Hj _]. unfold vals_fitb in Hj.
+  apply andb_prop in Hj as [A B]. apply Nat.eqb_eq in A. split; [exact A|now apply forallb_in_range].
+Qed.
+
+Lemma apply_writes_xform c ws i : forall h, (i = f_qform_code \/ i = f_sform_code) ->
+  Forall (fun w => allowed_write c w = true) ws ->
+  (forall v, In v (getf i h) -> memZ (to_signed (fwidth_of c i) v) (xform_codes_of c) = true) ->
+  forall v, In v (getf i (apply_writes ws h)) -> memZ (to_signed (fwidth_of c i) v) (xform_codes_of c) = true.
+Proof.
+  induction ws as [|[j vs] ws IH]; intros h Hi Hw H0; [exact H0|]. inversion Hw as [|? ? Hj Hws]; subst.
+  cbn [apply_writes fold_left fst snd]. fold (apply_writes ws (setf j vs h)). apply IH; [assumption|assumption|].
+  intros v Hv. destruct (Z.eq_dec j i) as [->|Ne].
+  - rewrite getf_setf_gen in Hv. destruct (hasf i h); [|destruct Hv].
+    cbn [allowed_write] in Hj. apply andb_prop in Hj as [_ Hj]. unfold fwidth_of.
+    destruct (find_field i (layout_of c)) as [f|]; [|discriminate]. apply andb_prop in Hj as [_ Hj].
+    assert (X : (i =? f_qform_code) || (i =? f_sform_code) = true) by (destruct Hi as [->| ->]; rewrite Z.eqb_refl; auto using orb_true_r).
+    rewrite X in Hj. cbn [negb orb] in Hj. rewrite forallb_forall in Hj. now apply Hj.
+  - rewrite getf_setf_other in Hv by congruence. now apply H0.
+Qed.
+
+Lemma default_fits c : hdr_fits (layout_of c) (default_hdr c) = true.
+Proof. destruct c; vm_compute; reflexivity. Qed.
+
+Lemma take_drop_firstn_skipn {A} n k (l : list A) : 0 <= n -> 0 <= k -> take n (drop k l) = firstn (Z.to_nat n) (skipn (Z.to_nat k) l).
+Proof. reflexivity. Qed.
+
+Definition final_hdr (c : hclass) (ws : list (Z * list Z)) : hdr := finalise c (apply_writes ws (default_hdr c)).
+Definition enc_order (c : hclass) (be : bool) : bool := match c with Mgh => true | _ => be end.
+
+Lemma magic_fits c f : is_nifti c = true -> find_field f_magic (layout_of c) = Some f ->
+  vals_fit f (fcount f) (pad_to 4 (if is_single_of c then single_magic_of c else pair_magic_of c)).
+Proof.
+  intros N E. destruct c; try discriminate; vm_compute in E; inversion E; subst; split; try reflexivity;
+    repeat (apply Forall_cons; [unfold in_range; vm_compute; split; [discriminate|reflexivity]|]); apply Forall_nil.
+Qed.
+
+Lemma final_fits c ws : Forall (fun w => allowed_write c w = true) ws -> hdr_fits (layout_of c) (final_hdr c ws) = true.
+Proof.
+  intros Hw. unfold final_hdr, finalise. pose proof (apply_writes_fits c ws _ (default_fits c) Hw) as F.
+  destruct (is_nifti c) eqn:N; [|exact F]. apply hdr_fits_setf; [exact F|]. intros f E. now apply magic_fits.
+Qed.
+
+Lemma written_field c be ws f : Forall (fun w => allowed_write c w = true) ws -> In f (layout_of c) ->
+  take (Z.of_nat (fwidth f * fcount f)) (drop (foff f) (written c be ws))
+  = enc_elems (enc_order c be) (fwidth f) (getf (fid f) (final_hdr c ws)).
+Proof.
+  intros Hw Hin. unfold take, drop, written. rewrite Nat2Z.id. fold (final_hdr c ws). fold (enc_order c be).
+  apply field_bytes_of_encode; [now apply final_fits|assumption].
+Qed.
+
+Lemma written_length c be ws : Forall (fun w => allowed_write c w = true) ws -> zlen (written c be ws) = size_of c.
+Proof.
+  intros Hw. unfold written. fold (final_hdr c ws).
+  exact (proj2 (class_decode_encode c _ _ (final_fits c ws Hw))).
+Qed.
+
+Lemma final_protected c ws i : Forall (fun w => allowed_write c w = true) ws ->
+  memZ i (protected_fields c) = true -> i <> f_magic -> getf i (final_hdr c ws) = getf i (default_hdr c).
+Proof.
+  intros Hw Hp Hm. unfold final_hdr, finalise. destruct (is_nifti c); [rewrite getf_setf_other by assumption|];
+    now apply (apply_writes_get c).
+Qed.
+
+Lemma final_keys c ws : map fst (final_hdr c ws) = map fid (layout_of c).
+Proof.
+  unfold final_hdr, finalise. assert (K : forall h, map fst (apply_writes ws h) = map fst h).
+  { induction ws as [|w ws IH]; intros h; [reflexivity|]. cbn [apply_writes fold_left]. fold (apply_writes ws (setf (fst w) (snd w) h)).
+    now rewrite IH, setf_keys. }
+  destruct (is_nifti c); rewrite ?setf_keys, K; apply default_keys.
+Qed.
+
+(* NIfTI-1 single / pair: 348 bytes with a NIfTI-1 magic at 344:348 *)
+Lemma sig_nifti1 c be ws cf : is_nifti1 c = true -> Forall (fun w => allowed_write c w = true) ws ->
+  signature c cf (written c be ws) = true.
+Proof.
+  intros N Hw.
+  destruct (find_field f_magic (layout_of c)) as [f|] eqn:E; [|destruct c; discriminate].
+  destruct (find_field_in _ _ _ E) as [Hin Eid].
+  pose proof (written_field c be ws f Hw Hin) as B. pose proof (written_length c be ws Hw) as L.
+  assert (G : getf f_magic (final_hdr c ws) = pad_to 4 (if is_single_of c then single_magic_of c else pair_magic_of c)).
+  { unfold final_hdr, finalise. replace (is_nifti c) with true by (destruct c; try discriminate; reflexivity).
+    apply getf_setf_same. rewrite hasf_keys.
+    assert (K : forall h, map fst (apply_writes ws h) = map fst h).
+    { clear. induction ws as [|w ws IH]; intros h; [reflexivity|]. cbn [apply_writes fold_left].
+      fold (apply_writes ws (setf (fst w) (snd w) h)). now rewrite IH, setf_keys. }
+    rewrite K, default_keys. destruct c; try discriminate; reflexivity. }
+  rewrite Eid, G in B.
+  destruct c; try discriminate; vm_compute in E; inversion E; subst f; cbn [fwidth fcount foff] in B;
+    change (Z.of_nat (1 * 4)) with 4 in B; unfold signature, has_magic1; rewrite L, B;
+    destruct be; vm_compute; reflexivity.
+Qed.
+
+(* Analyze / SPM99 / SPM2: 348 bytes, sizeof_hdr 348 in the header's byte order, bytes 344:348 (smin) are zero *)
+Lemma sig_analyze c be ws cf : analyze_family c = true -> is_nifti c = false ->
+  Forall (fun w => allowed_write c w = true) ws -> signature c cf (written c be ws) = true.
+Proof.
+  intros A N Hw.
+  destruct (find_field f_sizeof_hdr (layout_of c)) as [fs|] eqn:Es; [|destruct c; discriminate].
+  destruct (find_field f_smin (layout_of c)) as [fm|] eqn:Em; [|destruct c; discriminate].
+  destruct (find_field_in _ _ _ Es) as [Hins Eis]. destruct (find_field_in _ _ _ Em) as [Hinm Eim].
+  pose proof (written_field c be ws fs Hw Hins) as Bs. pose proof (written_field c be ws fm Hw Hinm) as Bm.
+  pose proof (written_length c be ws Hw) as L.
+  rewrite Eis in Bs. rewrite Eim in Bm.
+  rewrite (final_protected c ws f_sizeof_hdr Hw) in Bs by (destruct c; try discriminate; reflexivity || ids_neq).
+  rewrite (final_protected c ws f_smin Hw) in Bm by (destruct c; try discriminate; reflexivity || ids_neq).
+  destruct c; try discriminate; vm_compute in Es, Em; inversion Es; inversion Em; subst fs fm;
+    cbn [fwidth fcount foff] in Bs, Bm; change (Z.of_nat (4 * 1)) with 4 in Bs, Bm;
+    change (drop 0 ?x) with x in Bs; unfold signature, has_magic1, sz_is; rewrite L, Bs, Bm;
+    destruct be; vm_compute; reflexivity.
+Qed.
+
+Lemma sig_mgh be ws cf : Forall (fun w => allowed_write Mgh w = true) ws -> signature Mgh cf (written Mgh be ws) = true.
+Proof.
+  intros Hw. destruct (find_field f_version (layout_of Mgh)) as [f|] eqn:E; [|discriminate].
+  destruct (find_field_in _ _ _ E) as [Hin Eid].
+  pose proof (written_field Mgh be ws f Hw Hin) as B. rewrite Eid in B.
+  rewrite (final_protected Mgh ws f_version Hw) in B by (reflexivity || ids_neq).
+  vm_compute in E. inversion E; subst f. cbn [fwidth fcount foff] in B. change (Z.of_nat (4 * 1)) with 4 in B.
+  change (drop 0 ?x) with x in B. unfold signature. rewrite B. vm_compute. reflexivity.
+Qed.
+
+Lemma singleton_of_len1 {A} (l : list A) : length l = 1%nat -> exists x, l = [x].
+Proof. destruct l as [|x [|y l]]; try discriminate. intros _. now exists x. Qed.
+
+Lemma default_qform_codes c : is_nifti c = true -> forall v, In v (getf f_qform_code (default_hdr c)) ->
+  memZ (to_signed (fwidth_of c f_qform_code) v) (xform_codes_of c) = true.
+Proof.
+  intros N v Hv. assert (E : getf f_qform_code (default_hdr c) = [0]) by (destruct c; try discriminate; vm_compute; reflexivity).
+  rewrite E in Hv. destruct Hv as [<-|[]]. destruct c; try discriminate; vm_compute; reflexivity.
+Qed.
+
+(* NIfTI-2 single / pair: 540 bytes, sizeof_hdr 540, bytes 344:348 hold qform_code (a recoder code,
+   never a NIfTI-1 magic) *)
+Lemma sig_nifti2 c be ws : is_nifti c = true -> is_nifti1 c = false ->
+  Forall (fun w => allowed_write c w = true) ws ->
+  signature c (n2_cifti (written c be ws)) (written c be ws) = true.
+Proof.
+  intros N N1 Hw.
+  destruct (find_field f_sizeof_hdr (layout_of c)) as [fs|] eqn:Es; [|destruct c; discriminate].
+  destruct (find_field f_qform_code (layout_of c)) as [fq|] eqn:Eq; [|destruct c; discriminate].
+  destruct (find_field_in _ _ _ Es) as [Hins Eis]. destruct (find_field_in _ _ _ Eq) as [Hinq Eiq].
+  pose proof (written_field c be ws fs Hw Hins) as Bs. pose proof (written_field c be ws fq Hw Hinq) as Bq.
+  pose proof (written_length c be ws Hw) as L. rewrite Eis in Bs. rewrite Eiq in Bq.
+  rewrite (final_protected c ws f_sizeof_hdr Hw) in Bs by (destruct c; try discriminate; reflexivity || ids_neq).
+  (* qform_code holds one recoder code *)
+  pose proof (final_fits c ws Hw) as Hfit.
+  pose proof (hdr_fits_len _ _ _ _ Hfit Eq) as Lq. pose proof (hdr_fits_range _ _ _ _ Hfit Eq) as Rq.
+  assert (Cq : forall v, In v (getf f_qform_code (final_hdr c ws)) ->
+                         memZ (to_signed (fwidth_of c f_qform_code) v) (xform_codes_of c) = true).
+  { unfold final_hdr, finalise. rewrite N. intros v. rewrite getf_setf_other by ids_neq.
+    apply (apply_writes_xform c ws f_qform_code); [now left|assumption|].
+    now apply default_qform_codes. }
+  assert (Wq : fwidth fq = 4%nat /\ fcount fq = 1%nat /\ fwidth_of c f_qform_code = 4%nat /\ xform_codes_of c = [0; 1; 2; 3; 4; 5])
+    by (destruct c; try discriminate; vm_compute in Eq; inversion Eq; subst; repeat split; reflexivity).
+  destruct Wq as (W1 & W2 & W3 & W4). rewrite W2 in Lq. destruct (singleton_of_len1 _ Lq) as [v Ev].
+  rewrite Ev in *. specialize (Cq v (or_introl eq_refl)). rewrite W3, W4 in Cq. inversion Rq as [|? ? Rv _]; subst.
+  rewrite W1 in Rv. unfold in_range in Rv.
+  assert (Hv : v = 0 \/ v = 1 \/ v = 2 \/ v = 3 \/ v = 4 \/ v = 5).
+  { unfold to_signed in Cq. change (pow256 4 / 2) with 2147483648 in Cq. change (pow256 4) with 4294967296 in *.
+    destruct (Z.ltb_spec v 2147483648).
+    - cbn [memZ] in Cq. lia.
+    - cbn [memZ] in Cq. lia. }
+  destruct c; try discriminate; vm_compute in Es, Eq; inversion Es; inversion Eq; subst fs fq;
+    cbn [fwidth fcount foff] in Bs, Bq; change (Z.of_nat (4 * 1)) with 4 in Bs, Bq;
+    change (drop 0 ?x) with x in Bs; unfold signature, has_magic1, sz_is; rewrite L, Bs, Bq, Bool.eqb_reflx;
+    destruct be; repeat (destruct Hv as [->|Hv]; [vm_compute; reflexivity|]); subst v; vm_compute; reflexivity.
+Qed.
+
+Lemma firstn_firstn_le {A} n m (l : list A) : (n <= m)%nat -> firstn n (firstn m l) = firstn n l.
+Proof. intros H. rewrite firstn_firstn. f_equal. lia. Qed.
+
+(* ... and the intent the CIFTI sniffer reads (in the byte order it guesses from dim[0]) is the header's
+   intent_code, for every header with dim[0] in 0..7 *)
+Lemma n2_cifti_spec c be ws : is_nifti c = true -> is_nifti1 c = false ->
+  Forall (fun w => allowed_write c w = true) ws ->
+  0 <= sval 8 (getf f_dim (final_hdr c ws)) <= 7 ->
+  n2_cifti (written c be ws) = in_intervals (sval 4 (getf f_intent_code (final_hdr c ws))) cifti_intents.
+Proof.
+  intros N N1 Hw Hd.
+  destruct (find_field f_sizeof_hdr (layout_of c)) as [fs|] eqn:Es; [|destruct c; discriminate].
+  destruct (find_field f_dim (layout_of c)) as [fd|] eqn:Ed; [|destruct c; discriminate].
+  destruct (find_field f_intent_code (layout_of c)) as [fi|] eqn:Ei; [|destruct c; discriminate].
+  destruct (find_field_in _ _ _ Es) as [Hins Eis]. destruct (find_field_in _ _ _ Ed) as [Hind Eid].
+  destruct (find_field_in _ _ _ Ei) as [Hini Eii].
+  pose proof (written_field c be ws fs Hw Hins) as Bs. pose proof (written_field c be ws fd Hw Hind) as Bd.
+  pose proof (written_field c be ws fi Hw Hini) as Bi. rewrite Eis in Bs. rewrite Eid in Bd. rewrite Eii in Bi.
+  rewrite (final_protected c ws f_sizeof_hdr Hw) in Bs by (destruct c; try discriminate; reflexivity || ids_neq).
+  pose proof (final_fits c ws Hw) as Hfit. pose proof (written_length c be ws Hw) as L.
+  pose proof (hdr_fits_len _ _ _ _ Hfit Ed) as Ld. pose proof (hdr_fits_range _ _ _ _ Hfit Ed) as Rd.
+  pose proof (hdr_fits_len _ _ _ _ Hfit Ei) as Li. pose proof (hdr_fits_range _ _ _ _ Hfit Ei) as Ri.
+  assert (EO : enc_order c be = be) by (destruct c; try discriminate; reflexivity).
+  rewrite EO in *.
+  assert (Sh : fs = mkField f_sizeof_hdr 0 4 1 KInt /\ fd = mkField f_dim 16 8 8 KInt /\ fi = mkField f_intent_code 504 4 1 KInt
+               /\ getf f_sizeof_hdr (default_hdr c) = [540] /\ size_of c = 540)
+    by (destruct c; try discriminate; vm_compute in Es, Ed, Ei; inversion Es; inversion Ed; inversion Ei; repeat split; reflexivity).
+  destruct Sh as (-> & -> & -> & Dz & Sz). cbn [fwidth fcount foff] in *. rewrite Dz in Bs. rewrite Sz in L.
+  change (Z.of_nat (4 * 1)) with 4 in *. change (Z.of_nat (8 * 8)) with 64 in *. change (drop 0 ?x) with x in Bs.
+  destruct (getf f_dim (final_hdr c ws)) as [|d0 drest] eqn:Edim; [discriminate|].
+  destruct (singleton_of_len1 _ Li) as [vi Evi]. rewrite Evi in *.
+  inversion Rd as [|? ? Rd0 _]; subst. inversion Ri as [|? ? Rvi _]; subst.
+  set (b := written c be ws) in *.
+  assert (Chd : take 8 (drop 16 b) = enc be 8 d0).
+  { unfold take in *. change (Z.to_nat 8) with 8%nat. change (Z.to_nat 64) with 64%nat in Bd.
+    rewrite <- (firstn_firstn_le 8 64) by lia. rewrite Bd. cbn [enc_elems flat_map].
+    apply firstn_app_exact, enc_length. }
+  assert (Chs : take 4 b = enc be 4 540) by (rewrite Bs; cbn [enc_elems flat_map]; apply app_nil_r).
+  assert (Chi : take 4 (drop 504 b) = enc be 4 vi) by (rewrite Bi; cbn [enc_elems flat_map]; apply app_nil_r).
+  assert (BE : n2_big_endian b = be).
+  { unfold n2_big_endian. rewrite Chd, Chs. unfold dec_s. rewrite !enc_length.
+    pose proof (guess_core 8 540 false be (enc be 8 d0) (enc be 4 540)) as G. cbn [negb] in G.
+    unfold guess_analyze in G. cbn [negb] in G.
+    assert (X : to_signed 8 (dec be (enc be 8 d0)) = sval 8 (d0 :: drest)).
+    { rewrite dec_enc by exact Rd0. reflexivity. }
+    specialize (G (or_intror eq_refl) (or_intror eq_refl) (enc_length _ _ _) (enc_length _ _ _) (enc_ok _ _ _) (enc_ok _ _ _)).
+    rewrite X in G. specialize (G Hd).
+    assert (Y : to_signed 4 (dec be (enc be 4 540)) = 540) by (destruct be; vm_compute; reflexivity).
+    specialize (G (fun _ => Y)).
+    destruct (to_signed 8 (dec false (enc be 8 d0)) =? 0).
+    - destruct (to_signed 4 (dec true (enc be 4 540)) =? 540); exact G.
+    - exact G. }
+  unfold n2_cifti. rewrite BE, Chi. f_equal. unfold dec_s. rewrite enc_length, dec_enc by exact Rvi. reflexivity.
+Qed.
+
+(* ================================================================== pixdim under check=True *)
+Lemma family_battery_pixdims c : analyze_family c = true -> In CkPixdims (battery_of c).
+Proof. destruct c; try discriminate; intros _; vm_compute; tauto. Qed.
+
+(* the only repairs check_fix makes to pixdim: pixdim[0] by _chk_qfac (when the class has that check),
+   pixdim[1:4] by _chk_pixdims (zeros -> 1, then abs of all three if any is negative); pixdim[4:] is kept *)
+Lemma check_fix_pixdim c h h' rs : analyze_family c = true -> hdr_fits (layout_of c) h = true ->
+  check_hdr c true h = Some (h', rs) ->
+  let p := getf f_pixdim h in
+  let e := view_env c h in
+  getf f_pixdim h'
+  = (if existsb (fun k => match k with CkQfac => true | _ => false end) (battery_of c)
+     then ck_fixv e CkQfac (firstn 1 p) else firstn 1 p)
+    ++ ck_fixv e CkPixdims (firstn 3 (skipn 1 p)) ++ skipn 4 p.
+Proof.
+  intros Hf Hfit H. cbv zeta. unfold check_hdr in H.
+  destruct (run_checks (view_env c h) true (battery_of c) (view_slots h)) as [[v1 r]|] eqn:R; [|discriminate].
+  inversion H; subst h' rs. clear H.
+  assert (V : v1 = fixs (view_env c h) (battery_of c) (view_slots h)).
+  { rewrite run_spec in R by apply batteries_wf. destruct (noraise _ _ _); [|discriminate]. now inversion R. }
+  assert (Hp : hasf f_pixdim h = true).
+  { rewrite hasf_keys, (hdr_fits_keys _ _ Hfit). apply (family_has_dim c Hf). }
+  unfold writeback. repeat rewrite getf_setf_other by ids_neq. rewrite getf_setf_same by (rewrite !hasf_setf; exact Hp).
+  f_equal; [|f_equal].
+  - change (s_qfac v1) with (get_slot SQfac v1). rewrite V.
+    destruct (existsb _ (battery_of c)) eqn:Q.
+    + assert (Hin : In CkQfac (battery_of c)).
+      { apply existsb_exists in Q as (k & Hk & E). destruct k; try discriminate. exact Hk. }
+      exact (slot_val_fixs_in (view_env c h) CkQfac (battery_of c) (view_slots h) (batteries_wf c) Hin).
+    + destruct (get_fixs_cases (view_env c h) SQfac (battery_of c) (view_slots h) (batteries_wf c)) as [E|(k & Hk & Sk & _)];
+        [exact E|].
+      exfalso. assert (X : existsb (fun k => match k with CkQfac => true | _ => false end) (battery_of c) = true).
+      { apply existsb_exists. exists k. split; [exact Hk|]. destruct k; try discriminate; reflexivity. }
+      congruence.
+  - change (s_spat v1) with (get_slot SSpat v1). rewrite V.
+    exact (slot_val_fixs_in (view_env c h) CkPixdims (battery_of c) (view_slots h) (batteries_wf c) (family_battery_pixdims c Hf)).
+Qed.
+
+(* hence: when pixdim[1:4] has no zero and no negative entry, check_fix leaves pixdim[1:] - the zooms - alone *)
+Lemma check_fix_zooms_clean c h h' rs : analyze_family c = true -> hdr_fits (layout_of c) h = true ->
+  check_hdr c true h = Some (h', rs) ->
+  any (f_le0 (pix_w c)) (firstn 3 (skipn 1 (getf f_pixdim h))) = false ->
+  skipn 1 (getf f_pixdim h') = skipn 1 (getf f_pixdim h) /\ get_zooms c h' = get_zooms c h.
+Proof.
+  intros Hf Hfit H Hz. pose proof (check_fix_pixdim c h h' rs Hf Hfit H) as P. cbv zeta in P.
+  assert (F : ck_fixv (view_env c h) CkPixdims (firstn 3 (skipn 1 (getf f_pixdim h))) = firstn 3 (skipn 1 (getf f_pixdim h))).
+  { apply fixv_not_bad. unfold ck_bad. cbn [e_cls view_env]. exact Hz. }
+  rewrite F in P.
+  assert (L1 : forall q, length q = 1%nat -> skipn 1 (q ++ firstn 3 (skipn 1 (getf f_pixdim h)) ++ skipn 4 (getf f_pixdim h))
+                                         = skipn 1 (getf f_pixdim h)).
+  { intros q Lq. rewrite (skipn_app_exact q _ 1 Lq). change 4%nat with (3 + 1)%nat. rewrite <- skipn_skipn'. apply firstn_skipn. }
+  assert (Ldim : (4 <= length (getf f_pixdim h))%nat).
+  { pose proof (family_has_dim c Hf) as [_ Mp]. destruct (memZ_find _ _ Mp) as [f Ef].
+    rewrite (hdr_fits_len _ _ _ _ Hfit Ef). now apply (pix_count_ge4 c). }
+  assert (S1 : skipn 1 (getf f_pixdim h') = skipn 1 (getf f_pixdim h)).
+  { rewrite P. apply L1. destruct (existsb _ _) eqn:Q.
+    - apply fixv_len_qfac; [reflexivity|]. rewrite firstn_length. lia.
+    - rewrite firstn_length. lia. }
+  split; [exact S1|].
+  unfold get_zooms. rewrite (check_hdr_other c true h h' rs f_dim H eq_refl).
+  destruct (sval (dim_w c) (getf f_dim h) =? 0); [reflexivity|].
+  unfold py_slice1. assert (Ln : zlen (getf f_pixdim h') = zlen (getf f_pixdim h)).
+  { unfold zlen. f_equal. rewrite P, !app_length, skipn_length, firstn_length, skipn_length.
+    destruct (existsb _ _); [rewrite (fixv_len_qfac (view_env c h) CkQfac _ eq_refl) by (rewrite firstn_length; lia)|rewrite firstn_length]; lia. }
+  rewrite Ln. unfold drop. change (Z.to_nat 1) with 1%nat. now rewrite S1.
+Qed.
